@@ -148,3 +148,74 @@ def for_invariant(real_fn, ordinal, modifies):
         return inv
 
     return deco
+
+
+class WhileInductive:
+    """`while` loop by inductive invariant, for any number of iterations (no unrolling).  inv(<locals by name>,
+    <entry values as name0>) is an obligation on entry; then the modified int locals are havocked and the invariant is
+    assumed: from this arbitrary state the guard is evaluated - if it is false the code after the loop continues (the
+    exit state satisfies invariant and negated guard) - and the real body is executed once: leaving through `break`
+    continues after the loop, completing the iteration makes inv an obligation again and ends the path.  An optional
+    variant(<locals>) must be non-negative when the body is entered and smaller after a completed iteration
+    (termination)."""
+
+    def __init__(self, inv, modifies, variant=None):
+        self.inv, self.modifies, self.variant = inv, list(modifies), variant
+        self.params = list(inspect.signature(inv).parameters)
+        self.vparams = list(inspect.signature(variant).parameters) if variant is not None else []
+
+    def _call(self, I, f, params, env, entry):
+        kwargs = {}
+        for p in params:
+            if p.endswith("0") and p[:-1] in entry:
+                kwargs[p] = entry[p[:-1]]
+            else:
+                found, v = env.lookup(p)
+                if not found:
+                    raise Undecided(f"loop contract refers to local {p!r} which does not exist (renamed?)")
+                kwargs[p] = v
+        return I.call(f, [], kwargs)
+
+    def run_while(self, I, s, env, g, fn, key):
+        from .core import PathEnd
+        from .interp import _Break, _Continue
+        e = I.e
+        tag = f"{key[0].split('.')[-1]}#{key[1]}"
+        entry = {}
+        for name in set(self.modifies) | {p[:-1] for p in self.params if p.endswith("0")}:
+            found, v = env.lookup(name)
+            if not found:
+                raise Undecided(f"loop contract of {key}: local {name!r} does not exist (renamed?)")
+            entry[name] = v
+        e.check(zbool(self._call(I, self.inv, self.params, env, entry)), f"loop-invariant-holds-on-entry[{tag}]")
+        for name in self.modifies:
+            env[name] = SInt(z3.Int(e.newname(f"hv!{name}")))
+        e.assume(zbool(self._call(I, self.inv, self.params, env, entry)))
+        if not ops.truth(I, I.eval(s.test, env, g, fn)):
+            I.exec_block(s.orelse, env, g, fn)
+            return
+        before = None
+        if self.variant is not None:
+            before = self._call(I, self.variant, self.vparams, env, entry)
+        try:
+            I.exec_block(s.body, env, g, fn)
+        except _Break:
+            return
+        except _Continue:
+            pass
+        e.check(zbool(self._call(I, self.inv, self.params, env, entry)), f"loop-invariant-preserved[{tag}]")
+        if before is not None:
+            after = self._call(I, self.variant, self.vparams, env, entry)
+            from .core import zint
+            e.check(z3.And(zint(before) >= 0, zint(after) < zint(before)), f"loop-variant-decreases[{tag}]")
+        raise PathEnd()
+
+
+def while_inductive(real_fn, ordinal, modifies, variant=None):
+
+    def deco(inv):
+        f = getattr(real_fn, "__func__", real_fn)
+        registry.LOOPSPECS[(f"{f.__module__}.{f.__qualname__}", ordinal)] = WhileInductive(inv, modifies, variant)
+        return inv
+
+    return deco
